@@ -164,7 +164,29 @@ def mutants(njobs, only=None, all_props=False):
     return 0 if bad == 0 else 1
 
 
+def compliant(njobs, only=None):
+    """negative controls: behaviour-changing but property-compliant variants must not raise any alarm"""
+    from .props import PROPS
+    bad = 0
+    names = sorted(glob.glob(os.path.join(HERE, 'selftest', 'compliant', '*.patch')))
+    for p in names:
+        name = os.path.basename(p)[:-6]
+        if only and not name.startswith(only):
+            continue
+        res = run_mutant({'patch': p}, sorted(PROPS), njobs)
+        alarms = {k: r for k, r in res.items() if r['rc'] != 0}
+        print('%-28s %s' % (name, 'QUIET' if not alarms else 'ALARM in %s' % sorted(alarms)))
+        for k, r in sorted(alarms.items()):
+            bad += 1
+            print('    %s rc=%s %s' % (k, r['rc'], [l[:400] for l in r['lines'][:3]]))
+        sys.stdout.flush()
+    print('COMPLIANT VARIANTS: %d alarm(s)' % bad)
+    return 0 if bad == 0 else 1
+
+
 def run_selftest(what, njobs):
+    if what.startswith('compliant'):
+        return compliant(njobs, what.split(':', 1)[1] if ':' in what else None)
     if what == 'determinism':
         return determinism(njobs)
     if what.startswith('mutants'):
